@@ -1,0 +1,72 @@
+//go:build verif
+
+// Contracts for futures (property C04; the ownership part of C10). Comment-only: compiled under the build tag
+// `verif` and read by /verif/engine (govc).
+//
+// Per call, one goroutine: the completion step close() takes effect at most once per future - the second and
+// every later call changes nothing, closes nothing, calls nothing, tells nobody. What several goroutines racing
+// on one future do is decided by the CompareAndSwap on `closed` and by `mu` (ownership obligation below); the
+// interleavings themselves are not a per-call property.
+
+package future
+
+//@ guarded (*Future).forwarders by mu
+
+// a future as NewFuture builds it: the done channel exists and is closed exactly when the future is completed
+//@ pure futwf(f *Future) bool = f != nil && f.done != nil && (aval(f.closed) <==> gcount(chclosed, f.done) > 0) && 0 <= gcount(chclosed, f.done) && gcount(chclosed, f.done) <= 1 &&
+//@     forall i mathint :: 0 <= i && i < len(f.forwarders) ==> f.forwarders[i] != nil
+
+//@ func (*Future).tellForwarders
+//@   requires forall i mathint :: 0 <= i && i < len(refs) ==> refs[i] != nil
+//@   modifies gmap(piped), gmap(pipedn)
+//@   ensures  f.liaison == nil ==> gcount(pipedn, 0) == old(gcount(pipedn, 0))
+//@   ensures  f.liaison != nil ==> gcount(pipedn, 0) == old(gcount(pipedn, 0)) + len(refs)
+//@   ensures  f.liaison != nil ==> forall i mathint :: 0 <= i && i < len(refs) ==> gcount(piped, refs[i]) > old(gcount(piped, refs[i]))
+//@   ensures  forall r vivid.ActorRef :: gcount(piped, r) >= old(gcount(piped, r))
+//@ loop (*Future).tellForwarders#1
+//@   modifies gmap(piped), gmap(pipedn)
+//@   invariant -1 <= rangeindex && rangeindex < len(refs)
+//@   invariant gcount(pipedn, 0) == old(gcount(pipedn, 0)) + rangeindex + 1
+//@   invariant forall i mathint :: 0 <= i && i <= rangeindex ==> gcount(piped, refs[i]) > old(gcount(piped, refs[i]))
+//@   invariant forall r vivid.ActorRef :: gcount(piped, r) >= old(gcount(piped, r))
+
+// completion takes effect at most once
+//@ func (*Future).close
+//@   funcspec closer preserves f.err, f.message, f.done, f.liaison, f.forwarders, aval(f.closed), futwf(f)
+//@   requires futwf(f) && !held(f.mu)
+//@   modifies f.closed, f.err, f.message, f.forwarders, anyold, gmap(chclosed), gmap(piped), gmap(pipedn), ghost(calls_closer)
+//@   ensures  futwf(f) && aval(f.closed)
+// ... a completed future is left exactly as it is
+//@   ensures  old(aval(f.closed)) ==> f.err == old(f.err) && f.message == old(f.message) && f.forwarders == old(f.forwarders) &&
+//@            ghost(calls_closer) == old(ghost(calls_closer)) && gcount(pipedn, 0) == old(gcount(pipedn, 0)) &&
+//@            gcount(chclosed, f.done) == old(gcount(chclosed, f.done))
+// ... a pending one is completed with the value: done closed once, the closer (un-registration) run once, every
+// forwarder told once, none left waiting
+//@   ensures  !old(aval(f.closed)) ==> gcount(chclosed, f.done) == 1 && len(f.forwarders) == 0
+//@   ensures  !old(aval(f.closed)) && implements(v, "error") ==> f.err == v && f.message == old(f.message)
+//@   ensures  !old(aval(f.closed)) && v != nil && !implements(v, "error") ==> f.message == v && f.err == old(f.err)
+//@   ensures  !old(aval(f.closed)) && f.closer != nil ==> ghost(calls_closer) == old(ghost(calls_closer)) + 1
+//@   ensures  !old(aval(f.closed)) && f.liaison != nil ==> gcount(pipedn, 0) == old(gcount(pipedn, 0)) + old(len(f.forwarders))
+
+// de-duplication of forwarders (by address + path): assumed shape only
+//@ func (vivid.ActorRefs).Unique
+//@   trusted
+//@   ensures len(result) <= len(refs) && (len(refs) > 0 ==> len(result) > 0) && forall j mathint :: 0 <= j && j < len(result) ==> result[j] != nil
+
+// PipeTo: on a completed future the given forwarders are told now, once each; on a pending one nobody is told
+// now and they are registered (close() tells every registered forwarder once and clears the list)
+//@ func (*Future).PipeTo
+//@   requires futwf(f) && !held(f.mu) && forall i mathint :: 0 <= i && i < len(forwarders) ==> forwarders[i] != nil
+//@   modifies f.forwarders, gmap(piped), gmap(pipedn)
+//@   ensures  result == nil && futwf(f)
+//@   ensures  len(forwarders) == 0 ==> f.forwarders == old(f.forwarders) && gcount(pipedn, 0) == old(gcount(pipedn, 0))
+//@   ensures  len(forwarders) > 0 && aval(f.closed) && f.liaison != nil ==> gcount(pipedn, 0) == old(gcount(pipedn, 0)) + len(forwarders) && f.forwarders == old(f.forwarders)
+//@   ensures  len(forwarders) > 0 && !aval(f.closed) ==> gcount(pipedn, 0) == old(gcount(pipedn, 0)) && len(f.forwarders) > 0
+
+//@ func (*Future).Close
+//@   funcspec closer preserves f.err, f.message, f.done, f.liaison, f.forwarders, aval(f.closed), futwf(f)
+//@   requires futwf(f) && !held(f.mu)
+//@   modifies f.closed, f.err, f.message, f.forwarders, anyold, gmap(chclosed), gmap(piped), gmap(pipedn), ghost(calls_closer)
+//@   ensures  futwf(f) && aval(f.closed)
+//@   ensures  old(aval(f.closed)) ==> f.err == old(f.err) && f.message == old(f.message) && ghost(calls_closer) == old(ghost(calls_closer)) && gcount(pipedn, 0) == old(gcount(pipedn, 0))
+//@   ensures  !old(aval(f.closed)) && err != nil ==> f.err == err
